@@ -506,10 +506,38 @@ def gen_stall(rng):
     return base
 
 
+def gen_slow(rng):
+    """A conforming but slow device: every transport call takes a sizeable fraction of a second, every single packet arrives well inside the
+    per-read timeouts, and the whole-command limit timeout_s expires somewhere in the middle of (or at the very end of) the stream."""
+    base = gen_shell(rng)
+    env = base["envs"][0]
+    env["dt"] = rng.choice([100, 200, 300, 500])
+    env["frags"] = []
+    for op in base["ops"]:
+        if op["op"] in ("shell", "exec_out", "root", "streaming_shell"):
+            # an operation costs a few transport calls per packet; aim the deadline at a random point of (or just past) its exchange
+            op["t"] = env["dt"] * rng.randrange(3, 28) + rng.randrange(env["dt"])
+        op["tt"], op["rt"] = 10240, 10240
+    base["healthy"] = False
+    return base
+
+
+def gen_noclose(rng):
+    """A device that serves every request but never answers the host's closing CLSE (slow or lost reply): the operation's data phase succeeds
+    and the closing handshake times out."""
+    base = rng.choice([gen_sync_read, gen_sync_read, gen_push])(rng)
+    base["envs"][0]["sim"]["no_clse_reply"] = True
+    base["healthy"] = False
+    for op in base["ops"]:
+        if op.get("op") == "pull" and op.get("cb") in ("count", "raise", "raisebase"):
+            op["cb"] = "none"       # with a callback pull first runs stat() on its own stream, which would already fail at its close
+    return base
+
+
 def gen_fail(rng):
     """Device-side sync failures at every point: FAIL for RECV, FAIL status for SEND (at the end or overtaking an OKAY), invalid records."""
     files = {0: rand_bytes(rng, rng.choice([0, 100, 6000, 9000, 20000]))}
-    msg = rng.choice([b"", b"nope", b"Permission denied", b"\xff\xfe bad utf8 \xe2\x82", b"x" * 1024])
+    msg = rng.choice([b"", b"nope", b"Permission denied", b"\xff\xfe bad utf8 \xe2\x82", b"x" * 1024, b"disk 100% full", b"cannot open 'My%20Song.mp3': %s %d %(x)s {0} {}"])
     sim = dict(maxdata=rng.choice([4096, 8192]), burst=rng.random() < 0.5, wrte_split=rng.choice([None, [3], [9], [1], [8, 100]]), remote_ids=rand_remote_ids(rng),
                okay_after_reply=rng.random() < 0.4)
     ops = [connect_op(rng)]
@@ -553,7 +581,15 @@ def gen_fail(rng):
         sim["fs"] = {b"/x": ("raw", sync_rec(rid, 0, 0, 0, 0))}
         sim["expect"] = ("InvalidResponseError", None)
         ops.append(dict(op="list", path=b"/x"))
-    return dict(envs=[base_env(rng, sim)], ops=ops, files=files, failkind=kind)
+    env = base_env(rng, sim)
+    if rng.random() < 0.25:
+        # a slow device: the failure record trickles in over several packets, each well inside read_timeout_s, the whole of it not
+        env["dt"] = rng.choice([150, 250, 300])
+        env["frags"] = []
+        sim["wrte_split"] = rng.choice([[1], [2], [3], [5]])
+        for op in ops[1:]:
+            op["rt"], op["tt"] = rng.choice([1024, 1536]), 1024
+    return dict(envs=[env], ops=ops, files=files, failkind=kind)
 
 
 def gen_corrupt(rng):
@@ -563,7 +599,9 @@ def gen_corrupt(rng):
         how = rng.choice([True, True, "zero", "zero", rng.getrandbits(32), 0xFFFFFFFF])
     else:
         # bit flips, and whole words that are ids of OTHER protocols / protocol versions but not ADB commands of this library
-        how = rng.choice([True, 0x100, 0x80, 0x8000, 0x80000000, 0xFFFFFFFF, 1 << rng.randrange(32), b"STLS", b"FAIL", b"DATA", b"QUIT", b"okay"])
+        how = rng.choice([True, 0x100, 0x80, 0x8000, 0x80000000, 0xFFFFFFFF, 1 << rng.randrange(32), b"STLS", b"FAIL", b"DATA", b"QUIT", b"okay",
+                          ("trunc", rng.choice([1, 5, 24, 4096, 0xFFFFFFFF]), rng.choice([0x100, b"STLS", 0x80000000])),
+                          ("trunc", rng.choice([1, 5, 24, 4096, 0xFFFFFFFF]), rng.choice([0x100, b"STLS", 0x80000000]))])
     base["envs"][0]["sim"]["corrupt"] = (rng.randrange(1, 12), kind, how)
     base["healthy"] = False
     return base
